@@ -556,6 +556,20 @@ impl C20 {
                         if rc == u32::MAX {
                             return vec![]; // interior NUL: not expressible as a C string
                         }
+                        if rc != 0 {
+                            // a rejected start must not keep anything allocated
+                            let before = live_bytes();
+                            for _ in 0..4 {
+                                let _ = catch_sut(|| start(bytes, pf, bf));
+                            }
+                            let after = live_bytes();
+                            if after > before {
+                                return vec![(
+                                    "leak-on-failed-start".into(),
+                                    format!("{} bytes still allocated after 4 rejected calls of maybenot_start ({what}, result code {rc})", after - before),
+                                )];
+                            }
+                        }
                         if rc != want {
                             vec![(
                                 "start-code".into(),
@@ -577,6 +591,19 @@ impl C20 {
                     unsafe { maybenot_start(c.as_ptr(), 0.0, 0.0, std::ptr::null_mut()) } as u32;
                 if r != 4 {
                     v.push(("null-out".into(), format!("maybenot_start with a null out pointer returned {r}, expected 4 (NullPointer)")));
+                }
+                // a start that fails hands nothing to the caller, so nothing of it may
+                // stay allocated (the first call above was the warm-up)
+                let before = live_bytes();
+                for _ in 0..8 {
+                    unsafe { maybenot_start(c.as_ptr(), 0.0, 0.0, std::ptr::null_mut()) };
+                }
+                let after = live_bytes();
+                if after > before {
+                    v.push((
+                        "leak-on-failed-start".into(),
+                        format!("{} bytes still allocated after 8 calls of maybenot_start with valid machines and a null out pointer (each returned NullPointer, nothing can be passed to maybenot_stop)", after - before),
+                    ));
                 }
                 if unsafe { maybenot_num_machines(std::ptr::null_mut()) } != 0 {
                     v.push((
@@ -872,7 +899,7 @@ impl Engine for C20 {
             property: "C20",
             engine: "ffisim",
             level: "exploration",
-            rule: "case kinds: (70%) lock-step - 0..5 generated machines of every family (probabilistic ones included: the API's entropy is replaced by a seeded ChaCha12 stream through hook H3b), fractions, 1..40 batches of 0..12 events over the 10 event types with valid, unknown and huge machine ids, virtual clock (hook H3a) with zero, small, large and backwards steps; the same batches drive two Rust reference frameworks seeded identically and started just before / just after maybenot_start; actions compared field by field, output buffer surrounded by canary-filled guard slots, unused slots checked untouched, count <= num_machines; four line framings of the machine string; (20%) start arguments: valid, empty string, CRLF, blank line, trailing/leading/only newline, non-UTF-8 byte, corrupted machine, truncated, fractions NaN/+-inf/-1e-300/1+ulp/2/-0.0 - result code compared with a harness-side reference of the Rust API; (5%) each null pointer of maybenot_start/on_events/num_machines; (5%) 40 start/on_events/stop cycles under the counting allocator; distinct = hash of the case; non-trivial = lock-step case that returned at least one action".into(),
+            rule: "case kinds: (70%) lock-step - 0..5 generated machines of every family (probabilistic ones included: the API's entropy is replaced by a seeded ChaCha12 stream through hook H3b), fractions, 1..40 batches of 0..12 events over the 10 event types with valid, unknown and huge machine ids, virtual clock (hook H3a) with zero, small, large and backwards steps; the same batches drive two Rust reference frameworks seeded identically and started just before / just after maybenot_start; actions compared field by field, output buffer surrounded by canary-filled guard slots, unused slots checked untouched, count <= num_machines; four line framings of the machine string; (20%) start arguments: valid, empty string, CRLF, blank line, trailing/leading/only newline, non-UTF-8 byte, corrupted machine, truncated, fractions NaN/+-inf/-1e-300/1+ulp/2/-0.0 - result code compared with a harness-side reference of the Rust API; (5%) each null pointer of maybenot_start/on_events/num_machines, and no bytes left allocated by starts that fail (null out with valid machines; every rejected start-argument case); (5%) 40 start/on_events/stop cycles under the counting allocator; distinct = hash of the case; non-trivial = lock-step case that returned at least one action".into(),
             assumptions: vec![
                 "the API's real start instant is unknown within the microseconds of the maybenot_start call: two references started before/after that call must agree, otherwise the case stops and is counted in ambiguous_skipped".into(),
                 "maybenot.h is not compiled: the extern \"C\" functions are called from Rust with repr(C) types".into(),
